@@ -56,7 +56,7 @@ def _cmd(case, d, lib, target_override=None):
         o = dict(outs)
         o[ch] = tgt
         argv = [build.tool("interrogate"), "-oc", o["oc"], "-od", o["od"], "-oh", o["oh"], "-module", "m", "-library", "l",
-                case["backend"], "-string", "-fnames"] + igate.std_args() + lib.search + ["l.h"]
+                case["backend"], "-string", "-fnames"] + igate.std_args() + lib.search + lib.cmd_headers
     return argv, tgt, outs
 
 
@@ -72,7 +72,7 @@ def judge(case, ctx):
         os.makedirs(os.path.join(d, "out"))
         os.makedirs(os.path.join(d, "pre"))
         if case["channel"] == "module_oc":
-            r0 = igate.interrogate(d, ["l.h"], opts=["-python-native", "-string"], extra_search=lib.search, oc="pre/l_igate.cxx", od="pre/l.in")
+            r0 = igate.interrogate(d, lib.cmd_headers, opts=["-python-native", "-string"], extra_search=lib.search, oc="pre/l_igate.cxx", od="pre/l.in")
             if r0.rc != 0:
                 return Outcome(discard=True)
         argv, tgt, outs = _cmd(case, d, lib)
